@@ -9,7 +9,7 @@ from bv.model import UnitModel, dims_of_quantity
 PID = "C09"
 RULE = (
     "The grid x-kind (Scalar on a simple/derived/empty quantity; Array on a simple/derived quantity backed by list, "
-    "tuple, ndarray, lengths 0..4; FixedArray list/ndarray) x k-type (int, float, numpy float64/float32/int32/int64, "
+    "tuple, ndarray (float64, also int64 and float32), lengths 0..4; FixedArray list/ndarray) x k-type (int, float, numpy float64/float32/int32/int64, "
     "0-d ndarray for Arrays; 1-d float64/int64 ndarray of equal length for Arrays) x the ten forms k*x x*k x/k x//k x+k "
     "k+x x-k k-x k/x k//x is enumerated completely for every Hypothesis draw of (unit/category choice, k magnitude, "
     "element values). Oracle: the result is an instance of x's class carrying a quantity; for the eight non-reciprocal "
@@ -29,7 +29,7 @@ KTYPES = ["int", "float", "np.float64", "np.float32", "np.int32", "np.int64", "n
 XKINDS = [
     "scalar_simple", "scalar_derived", "scalar_empty",
     "array_list_simple", "array_tuple_simple", "array_ndarray_simple",
-    "array_list_derived", "array_tuple_derived", "array_ndarray_derived", "array_list_empty",
+    "array_list_derived", "array_tuple_derived", "array_ndarray_derived", "array_list_empty", "array_ndarrayint_simple", "array_ndarrayf32_simple",
     "fixedarray_list_simple", "fixedarray_ndarray_simple", "fixedarray_tuple_derived",
 ]
 
@@ -147,6 +147,10 @@ class Checker:
         if cls == "scalar":
             return Scalar.CreateWithQuantity(q, vals[0] if vals else 1.5), Scalar
         if cls == "array":
+            if cont == "ndarrayint":
+                return Array.CreateWithQuantity(q, gen.as_container("ndarray_int", [int(round(v)) or 1 for v in vals])), Array
+            if cont == "ndarrayf32":
+                return Array.CreateWithQuantity(q, gen.as_container("ndarray_f32", vals)), Array
             return Array.CreateWithQuantity(q, gen.as_container(cont, vals)), Array
         vals = (vals + [1.5, 2.5])[: max(2, len(vals))]
         return FixedArray.CreateWithQuantity(q, gen.as_container(cont, vals), dimension=len(vals)), FixedArray
@@ -202,7 +206,7 @@ class Checker:
         if len(rv) != n:
             ctx.fail("result_length:%s" % cls.__name__, case, "%s: x has %d elements, the result %d" % (form, n, len(rv)))
             return
-        rel = 1e-6 if ktype == "np.float32" else 1e-12
+        rel = 1e-6 if (ktype == "np.float32" or "f32" in case["xkind"]) else 1e-12
         ks = list(k) if ktype.startswith("nd1") else [k] * n
         for kk, v, got in zip(ks, xv, rv):
             want = ref_value(form, kk, v)
@@ -210,7 +214,7 @@ class Checker:
             tol_scale = abs(want) + (abs(float(kk)) + abs(v) if form[1] in "+-" or form[-2] in "+-" else 0.0)
             if "//" in form:
                 # floor division of float32-rounded operands may legitimately land on the other side of an integer
-                if ktype == "np.float32":
+                if ktype == "np.float32" or "f32" in case["xkind"]:
                     continue
             if not (isinstance(got, (float, int, numpy.floating, numpy.integer)) and core.close(float(got), want, tol_scale, rel)):
                 ctx.fail("value_wrong:%s:%s" % (form, cls.__name__), case, "%s with k=%r (%s), element %r: got %r, expected %r" % (form, kk, ktype, v, got, want))
